@@ -11,9 +11,10 @@ from sv import core
 
 PROPERTY = "C12"
 GEN = ["Firm", "Murphy"]
-PROPS = ["ScoresVerif/Props/C12.lean"]
+PROPS = ["ScoresVerif/Props/C12.lean", "ScoresVerif/Props/C12Scaling.lean"]
 DRIVER_DEPS = ["ScoresVerif.Driver.C12"]
-AUDIT_FILES = ["ScoresVerif/Lemmas/Firm.lean", "ScoresVerif/Spec/Firm.lean", "ScoresVerif/Model/Firm.lean"]
+AUDIT_FILES = ["ScoresVerif/Lemmas/Firm.lean", "ScoresVerif/Lemmas/C12Scaling.lean", "ScoresVerif/Spec/Firm.lean",
+               "ScoresVerif/Model/Firm.lean"]
 LEVEL = "proof"
 TRUSTED = ["hand model of the firm loop / Python sum / mean(skipna), of the risk-matrix double sum, of "
            "matrix_weights_to_array and _scaling_to_weight_matrix in Model/Firm.lean (tied by correspondence only)"]
@@ -39,9 +40,14 @@ MANIFEST = dict(
          "scalar types, every array position) plus a random one/two-fault stream.",
     note="Trusted: Lean kernel; py2lean translator; SV.Fl (no rounding); hand model of the firm loop/sum/mean, of the risk-matrix "
          "reduction, of matrix_weights_to_array and of _scaling_to_weight_matrix (differential correspondence only). "
-         "_scaling_to_weight_matrix: only shape and non-negativity are proved (about the literal model); its content is compared with "
-         "the model and with a declarative staircase-corner oracle; it loses level crossovers when rows-1 > number of levels "
-         "(notes/C12.md N1: theorem scaling_tall_matrix_counterexample; tagged in the evidence, not failed). "
+         "_scaling_to_weight_matrix: the literal model of the Appendix-B loop is proved equal to the level-set (staircase-corner) "
+         "specification Spec.Firm.scalingWeights on the documented domain with rows-1 <= number of assessment weights "
+         "(scaling_weights_eq_spec), and on the whole documented domain to the corner weights cut off above row height "
+         "len(assessment_weights) (scaling_weights_eq_cut: it loses level crossovers when rows-1 > number of levels, "
+         "notes/C12.md N1, scaling_eq_spec_fails_outside_domain; tagged in the evidence, not failed); consequences: non-negativity, "
+         "total mass, risk matrix score with these weights = sum over levels of w_l * (score of the level's corner decision points); "
+         "matrix_weights_to_array / weights_from_warning_scaling are looked up BY LABEL (row = i-th largest threshold, column = "
+         "j-th supplied severity label: matrix_weights_lookup); the implementation is compared with the Lean Spec through the driver. "
          "weights= (apply_weights) belongs to C03.",
     technique="Lean 4 theorems over translator-regenerated kernels (two modules tied to a third through C11) + hand model; "
               "differential correspondence; exact-rational Spec oracle; relation FIRM = sum w * murphy_score between implementation runs",
@@ -821,6 +827,61 @@ def call_scaling(c):
     return weights_from_warning_scaling(np.array(c["S"]), c["w"], dimname("sev"), c["sev"], dimname("prob"), c["probs"])
 
 
+def wfs_op(c):
+    return {"op": "c12.wfs", "args": {"S": c["S"], "w": [core.fl_str(x) for x in c["w"]], "sev": c["sev"],
+                                      "probs": [core.fl_str(p) for p in c["probs"]]}}
+
+
+def labelled(da, c):
+    """the returned DataArray as the driver prints a WeightArray: both coordinates, the data with rows = prob dim, and the
+    weight found BY LABEL under every supplied (probability threshold, severity label)"""
+    return {"prob": [core.fl_str(float(x)) for x in da["prob"].values], "sev": [str(x) for x in da["sev"].values],
+            "data": [[core.fl_str(float(x)) for x in row] for row in da.transpose("prob", "sev").values],
+            "lookup": [[core.fl_str(float(da.sel(prob=p, sev=s).values)) for s in c["sev"]] for p in c["probs"]]}
+
+
+def scaling_lean_spec(cs):
+    """Spec.Firm.scalingWeights / scalingWeightsCut / cornerMatrix and the two domain predicates, evaluated by the Lean driver"""
+    res = core.run_driver("C12", [{"op": "c12.scaling_spec", "args": {"S": c["S"], "w": [core.fl_str(x) for x in c["w"]]}}
+                                  for c in cs])
+    out = []
+    for r in res:
+        f = lambda M: [[float(core.parse_fl(x)) for x in row] for row in M]      # noqa: E731
+        out.append(dict(domain=bool(r["domain"]), doc_domain=bool(r["doc_domain"]), spec=f(r["spec"]), cut=f(r["cut"]),
+                        corners=[f(M) for M in r["corners"]]))
+    return out
+
+
+def level_sum_values(c):
+    """(risk_matrix_score with the warning-scaling weights, sum_l w_l * risk_matrix_score with the corner matrix of level l)"""
+    from scores.emerging import matrix_weights_to_array, risk_matrix_score
+    da = call_scaling(c)
+    f = xr.DataArray(np.array(c["fcst"]), dims=["case", "sev"], coords={"sev": c["sev"]})
+    o = xr.DataArray(np.array(c["obs"]), dims=["case", "sev"], coords={"sev": c["sev"]})
+    kw = dict(threshold_assignment=fresh(c["mode"]), preserve_dims=fresh("all"))
+    total = risk_matrix_score(f, o, da, dimname("sev"), dimname("prob"), **kw).values
+    parts = np.zeros(len(c["fcst"]))
+    for wl, M in zip(c["w"], c["corners"]):
+        wa = matrix_weights_to_array(np.array(M), dimname("sev"), c["sev"], dimname("prob"), c["probs"])
+        parts = parts + wl * risk_matrix_score(f, o, wa, dimname("sev"), dimname("prob"), **kw).values
+    return [float(x) for x in total], [float(x) for x in parts]
+
+
+def scaling_level_sum(ctx, c, sp):
+    """rm_score_scaling_eq_level_sum between implementation runs: risk_matrix_score with the warning-scaling weights =
+    sum over the levels of w_l * risk_matrix_score with the 0/1 weights on the corner decision points of level l
+    (corner matrices = Spec.Firm.cornerMatrix evaluated by the Lean driver)"""
+    rng = ctx.rng
+    ns = len(c["sev"])
+    c2 = dict(c, check="scaling-level-sum", corners=sp["corners"], mode=rng.choice(["lower", "upper"]),
+              fcst=[[rng.choice(c["probs"] + [0.0, 1.0, 0.2, 0.6, 0.95]) for _ in range(ns)] for _ in range(3)],
+              obs=[[rng.choice([0.0, 1.0]) for _ in range(ns)] for _ in range(3)])
+    total, parts = level_sum_values(c2)
+    if not all(core.close_ff(a, b) for a, b in zip(total, parts)):
+        ctx.fail("weight-matrix-orientation", "property", "risk_matrix_score", "score!=level-sum", c2, observed=total,
+                 expected=parts, tags={"mode": c2["mode"]}, theorem="rm_score_scaling_eq_level_sum")
+
+
 def scaling_spec(c):
     """declarative statement of the Appendix-B weights (independent of the loop in the code): level l puts its assessment
     weight w_l on the corner points of the staircase {S >= l}: decision point (row r counted from the bottom, severity column j)
@@ -863,28 +924,32 @@ def correspondence(ctx):
         ctx.case("impl-vs-model:matrix_weights_to_array", c)
         try:
             da = call_mw(c)
-            got = {"prob": [core.fl_str(float(x)) for x in da["prob"].values], "sev": [str(x) for x in da["sev"].values],
-                   "data": [[core.fl_str(float(x)) for x in row] for row in da.transpose("prob", "sev").values]}
+            got = labelled(da, c)
         except Exception as ex:  # noqa: BLE001
             got = {"err": core.exc_class(ex)}
-        exp = {k: m[k] for k in ("prob", "sev", "data")} if "err" not in m else m
+        exp = m
         if got != exp:
             ctx.fail("impl-vs-model:matrix_weights_to_array", "correspondence", "matrix_weights_to_array", "array",
                      dict(c, check="mw"), observed=got, expected=exp)
     scs = [gen_scaling(ctx.rng) for _ in range(ctx.n(80, 1500))]
-    res = core.run_driver("C12", [{"op": "c12.scaling", "args": {"S": c["S"], "w": [core.fl_str(x) for x in c["w"]]}} for c in scs])
-    for c, m in zip(scs, res):
+    res = core.run_driver("C12", [{"op": "c12.scaling", "args": {"S": c["S"], "w": [core.fl_str(x) for x in c["w"]]}} for c in scs]
+                          + [wfs_op(c) for c in scs])
+    for c, m, ml in zip(scs, res[:len(scs)], res[len(scs):]):
         ctx.case("impl-vs-model:weights_from_warning_scaling", c)
         try:
             da = call_scaling(c)
             got = [[core.fl_str(float(x)) for x in row] for row in da.transpose("prob", "sev").values]
             if [float(x) for x in da["prob"].values] != sorted(c["probs"], reverse=True):
                 got = "prob coords " + str(da["prob"].values)
+            gotl = labelled(da, c)
         except Exception as ex:  # noqa: BLE001
-            got = {"err": core.exc_class(ex)}
+            got = gotl = {"err": core.exc_class(ex)}
         if got != m:
             ctx.fail("impl-vs-model:weights_from_warning_scaling", "correspondence", "weights_from_warning_scaling", "array",
                      dict(c, check="scaling"), observed=got, expected=m)
+        elif gotl != ml:      # the labelled array: coordinates of both dims and the weight stored under every pair of labels
+            ctx.fail("impl-vs-model:weights_from_warning_scaling", "correspondence", "weights_from_warning_scaling", "labels",
+                     dict(c, check="scaling"), observed=gotl, expected=ml)
         tall = len(c["S"]) - 1 > max(max(max(r) for r in c["S"]), len(c["w"]))
         if tall:
             ctx.tag("scaling:n_prob>max_level (notes/C12.md N1)")
@@ -913,8 +978,9 @@ def oracle(ctx, boost):
         for site, sig, ob, ex, tags in mw_property(c):
             ctx.fail("weight-matrix-orientation", "property", site, sig, dict(c, check="mw-property"), observed=ob, expected=ex,
                      tags=tags, theorem="matrix_weights_rows_decreasing")
-    for _ in range(ctx.n(40, 400) * m):
-        c = gen_scaling(ctx.rng)
+    scs = [gen_scaling(ctx.rng) for _ in range(ctx.n(40, 400) * m)]
+    lean = scaling_lean_spec(scs)
+    for c, sp in zip(scs, lean):
         ctx.case("weight-matrix-orientation", c)
         try:
             da = call_scaling(c)
@@ -930,8 +996,25 @@ def oracle(ctx, boost):
                      dict(c, check="scaling-property"), observed={"prob": pc, "values": v.tolist()},
                      expected="rows in decreasing probability, shape (n_prob, n_sev), non-negative")
             continue
-        spec = scaling_spec(c)
         got = da.transpose("prob", "sev").values.tolist()
+        # the statement of scaling_weights_eq_spec / scaling_weights_eq_cut on the implementation, Spec evaluated in Lean:
+        # inside `scalingDomain` the level-set weights; on the rest of the documented domain the weights cut off above row
+        # height len(assessment_weights) (N1); columns labelled in the supplied order (matrix_weights_lookup)
+        ctx.tag("scaling:" + ("domain" if sp["domain"] else "doc-domain-only" if sp["doc_domain"] else "outside-doc-domain"))
+        if sp["doc_domain"]:
+            # doc-domain-only: the loop's actual result (cut, N1) — or the level-set weights themselves, should N1 get repaired
+            want = sp["spec"] if (sp["domain"] or got == sp["spec"]) else sp["cut"]
+            bylabel = [[float(da.sel(prob=p, sev=s_).values) for s_ in c["sev"]] for p in sorted(c["probs"], reverse=True)]
+            if got != want or bylabel != want or [str(x) for x in da["sev"].values] != c["sev"]:
+                ctx.fail("weight-matrix-orientation", "property", "weights_from_warning_scaling",
+                         "weights!=level-set-spec" if sp["domain"] else "weights!=cut-level-set-spec",
+                         dict(c, check="scaling-property"), observed={"data": got, "by-label": bylabel,
+                                                                      "sev": [str(x) for x in da["sev"].values]},
+                         expected=want, theorem="scaling_weights_eq_spec" if sp["domain"] else "scaling_weights_eq_cut")
+                continue
+            if sp["domain"]:
+                scaling_level_sum(ctx, c, sp)
+        spec = scaling_spec(c)
         if got != spec:
             tall = len(c["S"]) - 1 > max(max(max(r) for r in c["S"]), len(c["w"]))
             if tall:      # notes/C12.md N1: `lowest_prob_index = max_level + 1` loses crossovers above row max_level
@@ -990,7 +1073,19 @@ def replay(ctx, payload):
         return bool(mw_property(case))
     if chk == "scaling-property":
         da = call_scaling(case)
-        return da.transpose("prob", "sev").values.tolist() != scaling_spec(case)
+        got = da.transpose("prob", "sev").values.tolist()
+        sp = scaling_lean_spec([case])[0]
+        if sp["doc_domain"]:
+            want = sp["spec"] if (sp["domain"] or got == sp["spec"]) else sp["cut"]
+            bylabel = [[float(da.sel(prob=p, sev=s_).values) for s_ in case["sev"]] for p in sorted(case["probs"], reverse=True)]
+            if got != want or bylabel != want or [str(x) for x in da["sev"].values] != case["sev"]:
+                return True
+            if sp["domain"] or not FINDINGS:
+                return False
+        return got != scaling_spec(case)
+    if chk == "scaling-level-sum":
+        total, parts = level_sum_values(case)
+        return not all(core.close_ff(a, b) for a, b in zip(total, parts))
     if chk == "firm-guard":
         inside = bool(core.run_driver("C12", [firm_bad_op(case, "c12.firm_domain")])[0])
         return firm_bad_outcome(case) != ("ok" if inside else "ValueError")
